@@ -213,6 +213,11 @@ impl<'a, H: HashChain> InMemoryHssPublicKey<'a, H> {
 
         let public_key = InMemoryLmsPublicKey::new(&data[index..])?;
 
+        // An HSS public key is exactly the level count followed by one LMS public key
+        if data.len() - index != public_key.as_slice().len() {
+            return None;
+        }
+
         Some(Self {
             public_key,
             level: level as usize,
